@@ -65,6 +65,7 @@ PROPS = {
     ),
     'C06': dict(
         covered=[
+            'the tag table (SfTag::from_optional_cow; bounded-only harness on the whole of src/tags.rs, run with the real parser in every check, NOT a proof): each of the nine core schema tags has its kind in all five spellings (!!x, !x, verbatim URI, declared handle, verbatim local), the custom tags and the non-specific tag theirs, untagged None, foreign tags Other (F32)',
             'parse_int_signed / parse_int_unsigned for all 10 integer widths (monomorphised text of the generic functions): '
             'Ok(v) iff the trimmed token denotes the mathematical integer v (sign, decimal, 0x/0o/0b, `_` separators, legacy '
             'octal) and v fits the width; otherwise Err - never wrapped, saturated or truncated; unsigned rejects any `-`',
